@@ -15,12 +15,14 @@ import (
 	"io"
 	"os"
 	"path/filepath"
+	"reflect"
 	"sort"
 	"strconv"
 	"strings"
 	"sync"
 	"time"
 
+	stdflag "flag"
 	"github.com/vimeo/dials"
 	"github.com/vimeo/dials/decoders/cue"
 	djson "github.com/vimeo/dials/decoders/json"
@@ -52,7 +54,9 @@ type c18Cfg struct {
 	Nums   []int             `dials:"znums"`
 	Labels map[string]string `dials:"zlabels"`
 	DB     c18DB             `dials:"zdb"`
-	Need   string            `dials:"zneed"`
+	// a set: ez lets the file spell it as a list (Params.DisableAutoSetToSlice is off)
+	Blocked map[string]struct{} `dials:"zblocked"`
+	Need    string              `dials:"zneed"`
 	// unexported: carried verbatim from the defaults into every stacked config, so that the
 	// methods below can log into the case's recorder
 	rec *c18Rec
@@ -76,7 +80,21 @@ func c18Canon(c *c18Cfg) string {
 	if c == nil {
 		return "nil"
 	}
-	b, _ := json.Marshal(c)
+	cp := *c
+	cp.rec = nil
+	if len(cp.Tags) == 0 {
+		cp.Tags = nil
+	}
+	if len(cp.Nums) == 0 {
+		cp.Nums = nil
+	}
+	if len(cp.Labels) == 0 {
+		cp.Labels = nil
+	}
+	if len(cp.Blocked) == 0 {
+		cp.Blocked = nil
+	}
+	b, _ := json.Marshal(&cp)
 	return string(b)
 }
 
@@ -142,13 +160,20 @@ var c18Leaves = []c18Leaf{
 	{[]string{"zdb", "zhost"}, "string", func(c *c18Cfg, v any) { c.DB.Host = v.(string) }},
 	{[]string{"zdb", "zport"}, "int", func(c *c18Cfg, v any) { c.DB.Port = v.(int) }},
 	{[]string{"zdb", "ztls"}, "bool", func(c *c18Cfg, v any) { c.DB.TLS = v.(bool) }},
+	{[]string{"zblocked"}, "set", func(c *c18Cfg, v any) {
+		m := map[string]struct{}{}
+		for k := range v.(map[string]struct{}) {
+			m[k] = struct{}{}
+		}
+		c.Blocked = m
+	}},
 	{[]string{"zneed"}, "string", func(c *c18Cfg, v any) { c.Need = v.(string) }},
 	{[]string{"zpath"}, "string", func(c *c18Cfg, v any) { c.Path = v.(string) }},
 }
 
 const (
-	c18LeafNeed = 12
-	c18LeafPath = 13
+	c18LeafNeed = 13
+	c18LeafPath = 14
 )
 
 // a layer: value per leaf (nil = the layer does not set the leaf)
@@ -177,6 +202,8 @@ func c18Merge(rec *c18Rec, layers ...c18Layer) *c18Cfg {
 func c18Value(r *RNG, leaf, layer, n int) any {
 	lf := c18Leaves[leaf]
 	tag := fmt.Sprintf("%s%d", c18LayerNames[layer][:2], n)
+	// an explicitly EMPTY collection is an assignment too (file: `[]` / `{}`, environment and flags: empty text)
+	empty := layer != lDefault && r.Chance(22)
 	switch lf.kind {
 	case "string":
 		return lf.key[len(lf.key)-1][1:] + "-" + tag
@@ -194,8 +221,21 @@ func c18Value(r *RNG, leaf, layer, n int) any {
 		return 1000*(layer+1) + n
 	case "int64":
 		return (1 << 40) + 1000*layer + n
+	case "set":
+		k := 1 + r.Intn(3)
+		if empty {
+			k = 0
+		}
+		m := map[string]struct{}{}
+		for i := 0; i < k; i++ {
+			m[fmt.Sprintf("b%s%c", tag, 'a'+i)] = struct{}{}
+		}
+		return m
 	case "strs":
 		k := 1 + r.Intn(3)
+		if empty {
+			k = 0
+		}
 		o := make([]string, k)
 		for i := range o {
 			o[i] = fmt.Sprintf("t%s%c", tag, 'a'+i)
@@ -203,6 +243,9 @@ func c18Value(r *RNG, leaf, layer, n int) any {
 		return o
 	case "ints":
 		k := 1 + r.Intn(3)
+		if empty {
+			k = 0
+		}
 		o := make([]int, k)
 		for i := range o {
 			o[i] = 10000*(layer+1) + 10*n + i
@@ -210,6 +253,9 @@ func c18Value(r *RNG, leaf, layer, n int) any {
 		return o
 	case "map":
 		k := 1 + r.Intn(2)
+		if empty {
+			k = 0
+		}
 		m := map[string]string{}
 		for i := 0; i < k; i++ {
 			m[fmt.Sprintf("k%s%c", tag, 'a'+i)] = fmt.Sprintf("v%s%c", tag, 'a'+i)
@@ -250,8 +296,19 @@ func c18Text(v any) string {
 			o[i] = k + ":" + x[k]
 		}
 		return strings.Join(o, ",")
+	case map[string]struct{}:
+		return strings.Join(c18SetKeys(x), ",")
 	}
 	return fmt.Sprint(v)
+}
+
+func c18SetKeys(x map[string]struct{}) []string {
+	ks := make([]string, 0, len(x))
+	for k := range x {
+		ks = append(ks, k)
+	}
+	sort.Strings(ks)
+	return ks
 }
 
 func c18EnvName(leaf int) string {
@@ -275,6 +332,9 @@ func c18Doc(l c18Layer) map[string]any {
 				m[seg] = sub
 			}
 			m = sub
+		}
+		if set, ok := v.(map[string]struct{}); ok {
+			v = c18SetKeys(set) // non-nil, possibly empty
 		}
 		m[k[len(k)-1]] = v
 	}
@@ -345,17 +405,29 @@ func c18Render(doc map[string]any, format string) string {
 			for _, k := range c18SortedKeys(m) {
 				v := m[k]
 				if t, ok := c18AsTree(v); ok {
+					if len(t) == 0 {
+						fmt.Fprintf(&b, "%s%s: {}\n", ind, k)
+						continue
+					}
 					fmt.Fprintf(&b, "%s%s:\n", ind, k)
 					w(t, ind+"  ")
 					continue
 				}
 				switch x := v.(type) {
 				case []string:
+					if len(x) == 0 {
+						fmt.Fprintf(&b, "%s%s: []\n", ind, k)
+						continue
+					}
 					fmt.Fprintf(&b, "%s%s:\n", ind, k)
 					for _, s := range x {
 						fmt.Fprintf(&b, "%s  - %s\n", ind, c18Scalar(s, format))
 					}
 				case []int:
+					if len(x) == 0 {
+						fmt.Fprintf(&b, "%s%s: []\n", ind, k)
+						continue
+					}
 					fmt.Fprintf(&b, "%s%s:\n", ind, k)
 					for _, s := range x {
 						fmt.Fprintf(&b, "%s  - %d\n", ind, s)
@@ -435,6 +507,11 @@ type c18Case struct {
 	Wanted   string            `json:"path_wanted"`
 	Rewrites []string          `json:"rewrites,omitempty"`
 	Sched    string            `json:"model_schedule"`
+	// where the flags come from: "fresh" = flag.NewSetWithArgs; "prereg" = a flag.Set over a FlagSet on which
+	// the application already registered the flags listed in PreReg (same names, stdlib flag types);
+	// "second" = a flag.Set over a FlagSet on which an earlier ez call already registered ALL flags
+	FlagMode string   `json:"flag_mode"`
+	PreReg   []string `json:"preregistered_flags,omitempty"`
 }
 
 var c18EnvMu sync.Mutex // the process environment is global: one ez call at a time
@@ -465,7 +542,7 @@ func c18Join(xs []string) string {
 func runC18(c *Ctx) {
 	res := c.Res
 	res.Rule = "each case (own PRNG stream derived from seed and case index, so a single case replays alone): one config type (14 leaves: string/int/float/bool/uint16/int64/[]string/[]int/map/nested struct, the validity leaf zneed, the path leaf zpath); " +
-		"every leaf is assigned to a random subset of {default, file, environment, flag} with a distinct value per layer; the path leaf gets a different existing file per layer " +
+		"every leaf is assigned to a random subset of {default, file, environment, flag} with a distinct value per layer - for the collection leaves an explicitly EMPTY collection (file: [] / {}, environment and flags: empty text) in 22% of the assignments above the defaults; flags come from flag.NewSetWithArgs, from a flag.Set over a FlagSet on which the application pre-registered a random subset of the scalar flags, or from a flag.Set over a FlagSet an earlier ez call already registered all flags on; the path leaf gets a different existing file per layer " +
 		"(the file layer's own zpath names a decoy), every file other than the one ConfigPath(defaults+env+flags) names carries foreign values for all leaves; " +
 		"formats yaml/json/toml/cue x entry points {<Format>ConfigEnvFlag, ConfigFileEnvFlag, ConfigFileEnvFlagDecoderFactoryParams, FileExtensionDecoderConfigEnvFlag} x WatchConfigFile on/off; " +
 		"validity = zneed set and not bad-*: generated so that configs valid only with the file, valid only without it, never valid and always valid all occur; " +
@@ -530,6 +607,23 @@ func runC18(c *Ctx) {
 		cs.Watch = r.Chance(35)
 		if cs.Kind == "nodecoder" {
 			cs.Variant = "extension"
+		}
+		cs.FlagMode = []string{"fresh", "fresh", "prereg", "prereg", "second"}[r.Intn(5)]
+		if cs.Kind == "badflag" && cs.FlagMode == "second" {
+			cs.FlagMode = "prereg" // a FlagSet whose first Parse failed is not parsed again
+		}
+		var preReg []int
+		if cs.FlagMode == "prereg" {
+			all := r.Chance(30)
+			for li, lf := range c18Leaves {
+				switch lf.kind {
+				case "string", "int", "float", "bool", "uint16", "int64":
+					if all || r.Bool() {
+						preReg = append(preReg, li)
+						cs.PreReg = append(cs.PreReg, c18FlagName(li))
+					}
+				}
+			}
 		}
 		dir := filepath.Join(root, strconv.Itoa(idx))
 		os.MkdirAll(dir, 0o755)
@@ -769,13 +863,49 @@ func runC18(c *Ctx) {
 					panicked = p
 				}
 			}()
-			fs, ferr := dflag.NewSetWithArgs(dflag.DefaultFlagNameConfig(), defaults, cs.Args)
-			if ferr != nil {
-				err = fmt.Errorf("harness: NewSetWithArgs: %v", ferr)
-				panicked = err
-				return
+			var fs dials.Source
+			if cs.FlagMode == "fresh" {
+				nfs, ferr := dflag.NewSetWithArgs(dflag.DefaultFlagNameConfig(), defaults, cs.Args)
+				if ferr != nil {
+					err = fmt.Errorf("harness: NewSetWithArgs: %v", ferr)
+					panicked = err
+					return
+				}
+				nfs.Flags.SetOutput(io.Discard)
+				fs = nfs
+			} else {
+				raw := stdflag.NewFlagSet("", stdflag.ContinueOnError)
+				raw.SetOutput(io.Discard)
+				for _, li := range preReg {
+					name := c18FlagName(li)
+					switch c18Leaves[li].kind {
+					case "string":
+						raw.String(name, "app-default", "registered by the application")
+					case "int":
+						raw.Int(name, 7, "registered by the application")
+					case "float":
+						raw.Float64(name, 0.25, "registered by the application")
+					case "bool":
+						raw.Bool(name, false, "registered by the application")
+					case "uint16":
+						raw.Uint(name, 3, "registered by the application")
+					case "int64":
+						raw.Int64(name, 4, "registered by the application")
+					}
+				}
+				mk := func() *dflag.Set {
+					return &dflag.Set{Flags: raw, ParseFunc: func() error { return raw.Parse(cs.Args) }, NameCfg: dflag.DefaultFlagNameConfig()}
+				}
+				if cs.FlagMode == "second" {
+					// an earlier, unrelated call of an ez entry point in the same process: it registers every flag on `raw`
+					c0 := *defaults
+					c0.rec = nil
+					ctx0, cancel0 := context.WithCancel(context.Background())
+					ez.ConfigFileEnvFlag(ctx0, &c0, func(string) dials.Decoder { return c18Decoder(cs.Format) }, ez.Params[c18Cfg]{FlagSource: mk()})
+					cancel0()
+				}
+				fs = mk()
 			}
-			fs.Flags.SetOutput(io.Discard)
 			params := ez.Params[c18Cfg]{FlagSource: fs, WatchConfigFile: cs.Watch, OnNewConfig: onNew, OnWatchedError: onErr}
 			df := func(p string) dials.Decoder {
 				rec.mu.Lock()
@@ -1135,12 +1265,13 @@ func runC18(c *Ctx) {
 		res.Count("format/" + cs.Format)
 		res.Count("variant/" + cs.Variant)
 		res.Count("watch=" + b01(cs.Watch))
+		res.Count("flags/" + cs.FlagMode)
 		res.Count("err/" + errClass)
 		res.Count(fmt.Sprintf("need-scenario/%d", needScenario))
 		if reachesFile {
 			res.Count(fmt.Sprintf("base-valid=%s/full-valid=%s", b01(c18Valid(baseRef)), b01(c18Valid(fullRef))))
 		}
-		canon := fmt.Sprintf("%s|%s|%s|%v|%v", cs.Kind, cs.Format, cs.Variant, cs.Watch, subsets)
+		canon := fmt.Sprintf("%s|%s|%s|%v|%v|%s%v", cs.Kind, cs.Format, cs.Variant, cs.Watch, subsets, cs.FlagMode, cs.PreReg)
 		res.Case(canon, nontrivial, map[string]any{"kind": cs.Kind, "format": cs.Format, "variant": cs.Variant, "watch": cs.Watch,
 			"leaf_layer_subsets(bit0=default,1=file,2=env,3=flag)": fmt.Sprint(subsets), "env": cs.Env, "flags": cs.Args, "err": errClass})
 		os.RemoveAll(dir)
@@ -1224,9 +1355,14 @@ func c18Project(c *c18Cfg, li int) string {
 	case 11:
 		v = c.DB.TLS
 	case 12:
-		v = c.Need
+		v = c18SetKeys(c.Blocked)
 	case 13:
+		v = c.Need
+	case 14:
 		v = c.Path
+	}
+	if rv := reflect.ValueOf(v); (rv.Kind() == reflect.Slice || rv.Kind() == reflect.Map) && rv.Len() == 0 {
+		return "empty"
 	}
 	b, _ := json.Marshal(v)
 	return string(b)
